@@ -721,6 +721,8 @@ def rule_X2(ctx):
             hyps = [Lin({LEN: 1})]          # lbuf_len >= 0
             ren = None
             for it in items:
+                if it[0] == "blk":
+                    continue
                 if it[0] == "br":
                     c = f.nodes[it[1]]
                     facts_by_id[c["id"]] = it[2]
